@@ -126,6 +126,24 @@ func (r *run) playScript(lines []string) {
 	for n, l := range lines {
 		tok := strings.Fields(l)
 		switch tok[0] {
+		case "skew":
+			r.slog(l)
+			r.setSkew(tok[1])
+		case "auto", "auto-step":
+			// a lock waiter that got the lock (afterUnlock) / the overtaker's steps after a probe that
+			// got through (doProbe): both happen by themselves on replay, nothing to execute
+		case "probe":
+			a := tok[1]
+			if a == "rx" {
+				a = r.rx
+			}
+			p := r.sc.Parked(a)
+			if p == nil || p.Point != "prelock" {
+				r.status = fmt.Sprintf("notenabled:%d:%s", n, strings.ReplaceAll(l, " ", "_"))
+				return
+			}
+			r.slog(l)
+			r.doProbe(a)
 		case "call":
 			t, _ := strconv.Atoi(tok[1])
 			tk, _ := strconv.ParseInt(tok[4], 10, 64)
@@ -184,6 +202,14 @@ func (r *run) playRandom(g *vc.Rng) {
 		return nextSid + 3
 	}
 	pGz := 10 + g.Intn(40)
+	// clock regime of this schedule (see setSkew) and budget of lock probes
+	mode := []string{"none", "none", "ahead1m", "ahead1h", "just4"}[g.Intn(5)]
+	r.slog("skew " + mode)
+	r.setSkew(mode)
+	probes := 0
+	if g.Intn(3) == 0 {
+		probes = 1 + g.Intn(2)
+	}
 	for steps := 0; steps < 2000; steps++ {
 		type act struct {
 			kind  string
@@ -201,6 +227,15 @@ func (r *run) playRandom(g *vc.Rng) {
 		}
 		if r.enabled(r.rx) {
 			acts = append(acts, act{kind: "step", actor: r.rx}, act{kind: "step", actor: r.rx})
+		}
+		if probes > 0 && r.lock != "" && !r.broken {
+			if h := r.sc.Parked(r.lock); h != nil && (h.Point == "idgen" || h.Point == "written") {
+				for _, y := range append([]string{r.rx}, callerNames(r)...) {
+					if q := r.sc.Parked(y); y != r.lock && q != nil && q.Point == "prelock" {
+						acts = append(acts, act{kind: "probe", actor: y}, act{kind: "probe", actor: y}, act{kind: "probe", actor: y})
+					}
+				}
+			}
 		}
 		var open []*callState // received by the server, not yet answered
 		for _, c := range r.callers {
@@ -228,9 +263,20 @@ func (r *run) playRandom(g *vc.Rng) {
 			break
 		}
 		switch a.kind {
+		case "probe":
+			probes--
+			show := a.actor
+			if a.actor == r.rx {
+				show = "rx"
+			}
+			r.slog("probe " + show)
+			r.doProbe(a.actor)
 		case "call":
 			left[a.t]--
 			k := kinds[g.Intn(len(kinds))]
+			if k == "obj" && g.Intn(3) == 0 {
+				k = "ping" // the same request issued the way the pinger goroutine issues it
+			}
 			sp := callSpec{kind: k, hinted: k == "vecbare" || k == "vecobj", token: tokenBase + 3*ntok}
 			if !sp.hinted && g.Intn(8) == 0 {
 				sp.hinted = true // hints declared although the answer is not a vector
@@ -317,6 +363,14 @@ func (r *run) playRandom(g *vc.Rng) {
 		}
 	}
 	_ = total
+}
+
+func callerNames(r *run) []string {
+	var l []string
+	for _, c := range r.callers {
+		l = append(l, c.name)
+	}
+	return l
 }
 
 func main() {
